@@ -562,6 +562,68 @@ def _safe_issubclass_strict(a, b):
     return issubclass(a, b)
 
 
+def member(obj, tp):
+    """Reference model of instance membership for the structured types that
+    patterns are made of (executable specification, independent of
+    funsor.typing's subtype code): returns True / False, or None when the
+    model does not cover the type."""
+    import typing
+
+    import funsor
+    from funsor.typing import GenericTypeMeta, get_args, get_origin
+
+    if type(tp).__name__ == "_RuntimeSubclassCheckMeta":  # typing_wrap[...]
+        return member(obj, tp.__args__[0])
+    if tp is typing.Any or tp is object:
+        return True
+    origin = get_origin(tp)
+    args = get_args(tp)
+    if origin is typing.Union:
+        res = [member(obj, a) for a in args]
+        return None if any(r is None for r in res) else any(res)
+    if origin in (tuple, typing.Tuple):
+        if not isinstance(obj, tuple):
+            return False
+        if not args:
+            return True
+        if not obj:
+            # funsor gives the empty tuple the bare type Tuple, which it places
+            # only below bare/Any patterns (keeps the order transitive): not modelled
+            return None if args[-1] is Ellipsis else False
+        if args[-1] is Ellipsis:
+            res = [member(o, args[0]) for o in obj]
+        else:
+            if len(args) != len(obj):
+                return False
+            res = [member(o, a) for o, a in zip(obj, args)]
+        return None if any(r is None for r in res) else all(res)
+    if origin in (frozenset, typing.FrozenSet):
+        if not isinstance(obj, frozenset):
+            return False
+        if not args:
+            return True
+        if not obj:
+            return None  # the empty set: same convention as the empty tuple
+        res = [member(o, args[0]) for o in obj]
+        return None if any(r is None for r in res) else all(res)
+    if isinstance(tp, GenericTypeMeta):
+        if not isinstance(obj, origin):
+            return False
+        if not args:
+            return True
+        vals = getattr(obj, "_ast_values", None)
+        if vals is None or len(vals) != len(args):
+            return None
+        res = [member(v, a) for v, a in zip(vals, args)]
+        return None if any(r is None for r in res) else all(res)
+    if isinstance(tp, type):
+        try:
+            return isinstance(obj, tp)
+        except TypeError:
+            return None
+    return None
+
+
 def userland_dispatch(payload):
     """A user-defined registry whose patterns parametrise tuples, variadic
     tuples, unions and frozensets; the same argument objects are dispatched in
@@ -665,6 +727,35 @@ def _userland_session(payload):
     violations = []
     faults = {}
     dispatches = 0
+    # agreement of deep_isinstance with the reference membership model, for every
+    # (argument object, pattern component) pair of this registry
+    from funsor.typing import deep_isinstance
+
+    membership_checks = 0
+    comps = []
+    for name, types in patterns:
+        for t in types:
+            comps.extend(t if isinstance(t, tuple) else [t])
+    objs = singles + [frozenset({j3}), frozenset({x, Variable("y", funsor.Real)}), ((1, 2), (3,)), (i2, x), (t,)]
+    for o in objs:
+        for tp in comps:
+            want = member(o, tp)
+            if want is None:
+                continue
+            try:
+                got = bool(deep_isinstance(o, tp))
+            except Exception:  # noqa
+                continue
+            membership_checks += 1
+            if got != want and not violations:
+                violations.append(
+                    {
+                        "invariant": "subtype-disagrees-with-membership",
+                        "message": "deep_isinstance(%s, %r) is %s but the object %s an instance of that type (element-wise / field-wise membership)"
+                        % (repr(o)[:80], tp, got, "is" if want else "is not"),
+                        "fingerprint": "subtype-disagrees-with-membership",
+                    }
+                )
     for rep in range(payload.get("reps", 6)):
         reg = make()
         order = list(range(len(argsets)))
@@ -705,7 +796,7 @@ def _userland_session(payload):
     mon.uninstall()
     return {
         "violations": violations[:1],
-        "stats": {"runs": 0, "dispatch_calls": mon.calls, "userland_dispatches": dispatches, "userland_argument_tuples": len(argsets), "faults": faults},
+        "stats": {"runs": 0, "dispatch_calls": mon.calls, "userland_dispatches": dispatches, "userland_argument_tuples": len(argsets), "membership_checks": membership_checks, "faults": faults},
         "table": {},
     }
 
@@ -752,9 +843,11 @@ def _instance_session(payload):
 
     from sim import execs, oracle
 
-    stats = {"runs": 0, "terms": 0, "instance_checks": 0, "frozenset_checks": 0}
+    stats = {"runs": 0, "terms": 0, "instance_checks": 0, "frozenset_checks": 0, "precise_type_checks": 0, "membership_checks": 0}
     violations = []
     r = W.rng(payload["seed"])
+    from funsor.typing import get_origin
+
     for item in payload["programs"]:
         env = {}
         oracle.set_carrier(item.get("family"))
@@ -765,6 +858,15 @@ def _instance_session(payload):
         stats["runs"] += 1
         seen = set()
         stack = list(env.values())
+        # nodes rebuilt through their precise class with evaluated children
+        for v in list(env.values()):
+            if isinstance(v, funsor.terms.Funsor):
+                for interp in ("lazy", "normalize", "reflect"):
+                    try:
+                        with execs.INTERPS[interp]:
+                            stack.append(funsor.reinterpret(v))
+                    except Exception:  # noqa
+                        pass
         while stack and not violations:
             x = stack.pop()
             if not isinstance(x, funsor.terms.Funsor) or id(x) in seen:
@@ -772,6 +874,25 @@ def _instance_session(payload):
             seen.add(id(x))
             stats["terms"] += 1
             tp = deep_type(x)
+            try:
+                precise = get_origin(type(x))[tuple(map(deep_type, x._ast_values))]
+            except Exception:  # noqa
+                precise = None
+            if precise is not None:
+                stats["precise_type_checks"] += 1
+                if precise is not type(x):
+                    violations.append(
+                        {
+                            "invariant": "stale-precise-type",
+                            "message": "a term's class is %r but the precise type of its arguments is %r" % (type(x), precise),
+                            "fingerprint": "stale-precise-type",
+                        }
+                    )
+                    break
+                want = member(x, precise)
+                if want is False:
+                    violations.append({"invariant": "subtype-disagrees-with-membership", "message": "a term is not a member of the precise type of its own arguments %r" % (precise,), "fingerprint": "subtype-disagrees-with-membership"})
+                    break
             stats["instance_checks"] += 1
             if not deep_isinstance(x, tp) or not isinstance(x, tp) or not isinstance(x, funsor.typing.get_origin(tp)):
                 violations.append({"invariant": "not-instance-of-own-type", "message": "a %r is not an instance of its own precise type" % (tp,), "fingerprint": "not-instance-of-own-type"})
@@ -891,6 +1012,8 @@ def summarize(jobs, results, tier):
         "axiom_triples_covered": tot.get("axiom_triples", 0),
         "instance_checks": tot.get("instance_checks", 0),
         "userland_registry_dispatches": tot.get("userland_dispatches", 0),
+        "membership_vs_reference_model_checks": tot.get("membership_checks", 0),
+        "precise_type_checks": tot.get("precise_type_checks", 0),
         "frozenset_order_checks": tot.get("frozenset_checks", 0),
         "terms_visited": tot.get("terms", 0),
         "faults_fired_by_kind": faults,
